@@ -182,6 +182,7 @@ package comp
 //@   ensures forall i, k :: result1 && 0 <= i && i < len(old(c.lines)) && covers(old(c.lines[i]), addr) && (forall j :: 0 <= j && j < i ==> !covers(old(c.lines[j]), addr)) && 0 < k && k <= i ==> c.lines[k] == old(c.lines[k-1])
 //@   ensures forall i, k :: result1 && 0 <= i && i < len(old(c.lines)) && covers(old(c.lines[i]), addr) && (forall j :: 0 <= j && j < i ==> !covers(old(c.lines[j]), addr)) && i < k && k < len(c.lines) ==> c.lines[k] == old(c.lines[k])
 //@   ensures len(c.lines) == len(old(c.lines))
+//@   ensures wfCache(c)
 //@   assigns c.lines
 //@   loop 0: invariant c.lines == old(c.lines)
 //@   loop 0: invariant forall j :: 0 <= j && j < _idx0 ==> !covers(c.lines[j], addr)
